@@ -45,7 +45,7 @@ impl Family for SepComp {
         120
     }
     fn rule(&self) -> &'static str {
-        "projects = the 8 recorded multi-package corpus projects + 6 generated projects over {chain, diamond, fan-in, fan-out, two files per package} with cross-package generic fns, generic enums, structs, traits, impls in the trait's or the type's package, bound-generic code over a foreign trait + 4 ill-typed variants (error in leaf / middle / root) + 13 projects Main -> Mid -> Leaf in which Main, not importing Leaf, touches Leaf's declarations in one way each (opaque pass-through, field, method in dot / path form, trait path, bound, annotation, literal, pattern, function; local struct / enum / items spelled like the package or its items): both pipelines must give the same verdict + 4 projects declaring one spelling in two packages (variants, types, functions, traits and methods) + 42 projects of one package in two files in which a trait / trait and impl apart / trait bound / struct / enum / inherent method / function is declared in one file and used in another, in every placement relative to the entry file (which whole-program compilation reads first) and the sorted order (which build uses) + 8 projects whose entry point is missing, stands in a library or in a sibling file, takes a parameter, returns a value, is generic or is a struct (one verdict from both pipelines; an accepted program is valid Go) + 11 artifact-fidelity projects (a library of 12 float64 literals with up to 17 significant digits and a float32 midpoint literal; library function bodies of 20..320 statements and expressions of depth 40 / 160; `import Builtin` in Main and in a library) + 5 projects whose import graph is not a DAG (self-import of Main / of a library, used or not, a two-cycle, a library importing Main; no order is valid, so every permutation of the packages is tried and must be rejected) + one project per import DAG on 5 packages in which Main reaches every package (<= 4 edges, plus 5-edge ones in one naming, in quick; all in thorough) x 2 directory namings x {well-typed, every leaf ill-typed}; for each project every topological build order (<= 24) x {build only, check before build}; artifacts are written to and re-read from *.interface / *.core files; oracle: link succeeds iff whole-program compile succeeds; Go(link) and Go(whole) both pass the Go checker and print the same output (= the recorded output for corpus projects); check and build emit the same interface; every build order gives byte-identical artifacts. states = (packages built, artifact bytes) visited, transitions = check/build/link calls. non-trivial = projects with >= 2 packages; distinct = distinct (project, order, mode)"
+        "projects = the 8 recorded multi-package corpus projects + 6 generated projects over {chain, diamond, fan-in, fan-out, two files per package} with cross-package generic fns, generic enums, structs, traits, impls in the trait's or the type's package, bound-generic code over a foreign trait + 4 ill-typed variants (error in leaf / middle / root) + 13 projects Main -> Mid -> Leaf in which Main, not importing Leaf, touches Leaf's declarations in one way each (opaque pass-through, field, method in dot / path form, trait path, bound, annotation, literal, pattern, function; local struct / enum / items spelled like the package or its items): both pipelines must give the same verdict + 4 projects declaring one spelling in two packages (variants, types, functions, traits and methods) + 48 projects of one package in two files in which a trait / trait and impl apart / trait bound / struct / enum / inherent method / function / foreign type is declared in one file and used in another, in every placement relative to the entry file (which whole-program compilation reads first) and the sorted order (which build uses) + 8 projects whose entry point is missing, stands in a library or in a sibling file, takes a parameter, returns a value, is generic or is a struct (one verdict from both pipelines; an accepted program is valid Go) + 11 artifact-fidelity projects (a library of 12 float64 literals with up to 17 significant digits and a float32 midpoint literal; library function bodies of 20..320 statements and expressions of depth 40 / 160; `import Builtin` in Main and in a library) + 5 projects whose import graph is not a DAG (self-import of Main / of a library, used or not, a two-cycle, a library importing Main; no order is valid, so every permutation of the packages is tried and must be rejected) + one project per import DAG on 5 packages in which Main reaches every package (<= 4 edges, plus 5-edge ones in one naming, in quick; all in thorough) x 2 directory namings x {well-typed, every leaf ill-typed}; for each project every topological build order (<= 24) x {build only, check before build}; artifacts are written to and re-read from *.interface / *.core files; oracle: link succeeds iff whole-program compile succeeds; Go(link) and Go(whole) both pass the Go checker and print the same output (= the recorded output for corpus projects); check and build emit the same interface; every build order gives byte-identical artifacts. states = (packages built, artifact bytes) visited, transitions = check/build/link calls. non-trivial = projects with >= 2 packages; distinct = distinct (project, order, mode)"
     }
     fn cases(&self, tier: Tier) -> Box<dyn Iterator<Item = Value> + '_> {
         let nf = fixed_projects().len();
